@@ -476,7 +476,10 @@ Fixpoint nodupb (l : list string) : bool :=
 
 (* the pushed label is the requested one (then the arm accepts a single label) or a literal the arm accepts *)
 Definition plabel_ok (pl : option string) (children : list string) : bool :=
-  match pl with None => match children with [_] => true | _ => false end | Some l => mem l children end.
+  match pl with
+  | None => match children with [_] => true | _ => false end
+  | Some l => mem l children && (strlenZ l <=? 32)
+  end.
 
 (* an alternative is right only if its columns agree *)
 Definition alt_ok (ss : structs_t) (pty : string) (children : list string) (a : alt) : bool :=
@@ -682,3 +685,31 @@ Definition early_reject (o : op) (st : pstate) : bool :=
       end
   | OWhereReplay => match where_ st with None => true | Some (_, _, items) => MAX_DEPTH <=? lenZ items end
   end.
+
+(* ---- SHAPES ------------------------------------------------------------------------------------------------
+   The functions transcribed BY HAND above, as normalised token streams of their bodies at the commit named in the
+   header (comments, white space and the arguments of cgi_error dropped).  The translator re-extracts the streams
+   from the current sources (Gen_C11.shapes); [shapes_ok] compares.  A changed statement makes the obligation
+   C11_shapes false: the transcription has to be re-read against the new text (the correspondence run decides
+   meanwhile whether behaviour changed). *)
+Definition expected_shapes : list (string * string) := [
+  ("cgi_add_posit", "{ if ( posit_depth == CG_MAX_GOTO_DEPTH ) { cgi_error(..) ; return CG_ERROR ; } posit_stack [ posit_depth ] . posit = pos ; strcpy ( posit_stack [ posit_depth ] . label , label ) ; posit_stack [ posit_depth ] . index = index ; posit_stack [ posit_depth ] . id = id ; posit = & posit_stack [ posit_depth ++ ] ; return CG_OK ; }");
+  ("cgi_update_posit", "{ int n , ierr ; double pid , id ; char lab [ 33 ] , name [ 33 ] ; if ( posit == 0 ) { cgi_error(..) ; return CG_ERROR ; } for ( n = 0 ; n < cnt ; n ++ ) { if ( strlen ( label [ n ] ) > 32 ) { posit = 0 ; cgi_error(..) ; return CG_ERROR ; } if ( index [ n ] > 0 ) { strcpy ( lab , label [ n ] ) ; * name = 0 ; } else if ( 0 == strcmp ( label [ n ] , ""."" ) ) { continue ; } else if ( 0 == strcmp ( label [ n ] , "".."" ) ) { if ( posit_depth == 1 ) { cgi_error(..) ; posit = 0 ; return CG_ERROR ; } if ( 0 == strcmp ( posit -> label , ""Zone_t"" ) ) posit_zone = 0 ; posit_depth -- ; posit = & posit_stack [ posit_depth - 1 ] ; continue ; } else { if ( cgi_posit_id ( & pid ) ) { posit = 0 ; return CG_ERROR ; } strcpy ( name , label [ n ] ) ; if ( cgio_get_node_id ( cg -> cgio , pid , name , & id ) ) { posit = 0 ; cgi_error(..) ; return CG_NODE_NOT_FOUND ; } if ( cgio_get_label ( cg -> cgio , id , lab ) ) { posit = 0 ; cg_io_error(..) ; return CG_ERROR ; } } ierr = cgi_next_posit ( lab , index [ n ] , name ) ; if ( ierr ) { if ( ierr == CG_INCORRECT_PATH ) { cgi_error(..) ; } if ( ierr == CG_NODE_NOT_FOUND ) { if ( index [ n ] > 0 ) cgi_error(..) ; else cgi_error(..) ; } posit = 0 ; return ierr ; } } return CG_OK ; }");
+  ("cgi_set_posit", "{ cgns_base * base ; posit = 0 ; posit_file = posit_base = posit_zone = posit_depth = 0 ; cg = cgi_get_file ( fn ) ; if ( cg == 0 ) return CG_ERROR ; base = cgi_get_base ( cg , B ) ; if ( base == 0 ) return CG_NODE_NOT_FOUND ; posit_file = fn ; posit_base = B ; cgi_add_posit ( ( void * ) base , ""CGNSBase_t"" , B , base -> id ) ; return cgi_update_posit ( n , index , label ) ; }");
+  ("cgi_posit_id", "{ if ( posit == 0 ) { cgi_error(..) ; return CG_ERROR ; } * posit_id = posit -> id ; return CG_OK ; }");
+  ("vcg_goto", "{ int n ; int index [ CG_MAX_GOTO_DEPTH ] ; char * label [ CG_MAX_GOTO_DEPTH ] ; posit = 0 ; cg = cgi_get_file ( fn ) ; if ( cg == 0 ) return CG_ERROR ; for ( n = 0 ; n < CG_MAX_GOTO_DEPTH ; n ++ ) { label [ n ] = va_arg ( ap , char * ) ; if ( label [ n ] == NULL || label [ n ] [ 0 ] == 0 ) break ; if ( strcmp ( ""end"" , label [ n ] ) == 0 || strcmp ( ""END"" , label [ n ] ) == 0 ) break ; index [ n ] = va_arg ( ap , int ) ; } return cgi_set_posit ( fn , B , n , index , label ) ; }");
+  ("vcg_gorel", "{ int n = 0 ; int index [ CG_MAX_GOTO_DEPTH ] ; char * label [ CG_MAX_GOTO_DEPTH ] ; if ( posit == 0 ) { cgi_error(..) ; return CG_ERROR ; } if ( fn != posit_file ) { cgi_error(..) ; return CG_ERROR ; } for ( n = 0 ; n < CG_MAX_GOTO_DEPTH ; n ++ ) { label [ n ] = va_arg ( ap , char * ) ; if ( label [ n ] == NULL || label [ n ] [ 0 ] == 0 ) break ; if ( strcmp ( ""end"" , label [ n ] ) == 0 || strcmp ( ""END"" , label [ n ] ) == 0 ) break ; index [ n ] = va_arg ( ap , int ) ; } return cgi_update_posit ( n , index , label ) ; }");
+  ("cg_gopath", "{ int n , len ; const char * p = path , * s ; int index [ CG_MAX_GOTO_DEPTH ] ; char label [ CG_MAX_GOTO_DEPTH ] [ CGIO_MAX_NAME_LENGTH + 1 ] ; char * lab [ CG_MAX_GOTO_DEPTH ] ; if ( p == 0 || ! * p ) { cgi_error(..) ; return CG_ERROR ; } if ( * p == '/' ) { int ierr , B = 0 ; posit = 0 ; while ( * ++ p && * p == '/' ) ; if ( ! * p ) { cgi_error(..) ; return CG_ERROR ; } s = strchr ( p , '/' ) ; if ( s == 0 ) len = ( int ) strlen ( p ) ; else len = ( int ) ( s - p ) ; if ( len > 32 ) { cgi_error(..) ; return CG_ERROR ; } strncpy ( label [ 0 ] , p , len ) ; label [ 0 ] [ len ] = 0 ; cg = cgi_get_file ( fn ) ; if ( cg == 0 ) return CG_ERROR ; for ( n = 0 ; n < cg -> nbases ; n ++ ) { if ( 0 == strcmp ( label [ 0 ] , cg -> base [ n ] . name ) ) { B = n + 1 ; break ; } } if ( B == 0 ) { cgi_error(..) ; return CG_ERROR ; } ierr = cgi_set_posit ( fn , B , 0 , index , lab ) ; if ( ierr != CG_OK ) return ierr ; if ( s == 0 ) return CG_OK ; p = s ; } else { if ( posit == 0 ) { cgi_error(..) ; return CG_ERROR ; } if ( fn != posit_file ) { cgi_error(..) ; return CG_ERROR ; } } n = 0 ; while ( p && * p ) { while ( * p && * p == '/' ) p ++ ; if ( ! * p ) break ; s = strchr ( p , '/' ) ; if ( s == 0 ) len = ( int ) strlen ( p ) ; else len = ( int ) ( s - p ) ; if ( len > 32 ) { posit = 0 ; cgi_error(..) ; return CG_ERROR ; } if ( n == CG_MAX_GOTO_DEPTH ) { posit = 0 ; cgi_error(..) ; return CG_ERROR ; } strncpy ( label [ n ] , p , len ) ; label [ n ] [ len ] = 0 ; lab [ n ] = label [ n ] ; index [ n ++ ] = 0 ; p = s ; } return cgi_update_posit ( n , index , lab ) ; }");
+  ("cg_golist", "{ if ( depth >= CG_MAX_GOTO_DEPTH ) { cgi_error(..) ; return CG_ERROR ; } return cgi_set_posit ( fn , B , depth , index , label ) ; }");
+  ("cg_where", "{ int n ; if ( posit == 0 ) { cgi_error(..) ; return CG_ERROR ; } * fn = posit_file ; * B = posit_base ; * depth = posit_depth > 1 ? posit_depth - 1 : 0 ; if ( NULL != label ) { for ( n = 1 ; n < posit_depth ; n ++ ) strcpy ( label [ n - 1 ] , posit_stack [ n ] . label ) ; } if ( NULL != num ) { for ( n = 1 ; n < posit_depth ; n ++ ) num [ n - 1 ] = posit_stack [ n ] . index ; } return CG_OK ; }")
+].
+
+Fixpoint shapes_ok (expected actual : list (string * string)) : bool :=
+  match expected, actual with
+  | [], [] => true
+  | (f, s) :: e', (g, t) :: a' => String.eqb f g && String.eqb s t && shapes_ok e' a'
+  | _, _ => false
+  end.
+
+Definition changed_shapes (expected actual : list (string * string)) : list string :=
+  map fst (filter (fun p => match assoc (fst p) actual with Some t => negb (String.eqb (snd p) t) | None => true end) expected).
